@@ -91,3 +91,11 @@ Definition api_rexact (n : nat) (data : list byte) (sched : list rstep) : outcom
 Definition api_read_sched (hash : bool) (data : list byte) (sched : list rstep) : outcome game * list byte * option nat :=
   let '(res, h') := run_frag (p_slp_read hash (List.length data)) (mk_hreader data sched (if hash then Some [] else None)) in
   (res, fs_data (hr_inner h'), option_map (@List.length byte) (hr_hashed h')).
+
+(* irregular renderings (Proofs/Irregular*.v): the stream the definitions describe and the decidable membership test *)
+From Peppi Require Import Proofs.Irregular Proofs.IrregularCheck.
+Definition api_mk_irreg (extra : list (N * N)) (evs : list (N * list byte)) (junk : list byte) : irreg :=
+  {| ig_extra := extra; ig_events := evs; ig_junk := junk |}.
+Definition api_emit_irr (r : replay) (x : irreg) : list byte := emit_irr r x.
+Definition api_wf_irreg2_b (r : replay) (x : irreg) : bool :=
+  match game_start (r_start r) with ROk st => wf_irreg2_b r st x | _ => false end.
